@@ -25,14 +25,15 @@ def emit(ev):
     sys.stdout.write(json.dumps(ev, separators=(",", ":")) + "\n")
 
 
-def level(fn, vals, qs, n, m):
+def level(fn, vals, qs, n, m, phikind="trap"):
     x, _ = np.polynomial.legendre.leggauss(n)
+    z = np.polynomial.legendre.leggauss(m)[0] if phikind == "gl" else None
     pts = []
     for i in range(n):
         s = sqrt(1.0 - x[i] * x[i])
         row = []
         for k in range(m):
-            ph = 2.0 * pi * k / m
+            ph = pi * (1.0 + z[k]) if phikind == "gl" else 2.0 * pi * k / m
             vecs, f2 = [], []
             for q in qs:
                 v = (q * (s * cos(ph)), q * (s * sin(ph)), q * x[i])
@@ -40,7 +41,7 @@ def level(fn, vals, qs, n, m):
                 f2.append(fstr(fn(v[0], v[1], v[2], vals.ctypes.data)))
             row.append({"q": vecs, "F2": f2})
         pts.append(row)
-    return {"n": n, "m": m, "pts": pts}
+    return {"n": n, "m": m, "phikind": phikind, "pts": pts}
 
 
 def run(sc, workdir):
@@ -68,18 +69,20 @@ def run(sc, workdir):
         mesh = get_mesh(info, dict(mono), dim="1d")
         _, values, _ = make_kernel_args(k1, [(m[0], [m[0]], [1.0]) for m in mesh])
         vals = np.ascontiguousarray(values[2:2 + P.npars], dtype="d")
-        n1, m1 = (24, 16) if sym == "abc" else (24, 1)
+        n1, m1 = (24, 24) if sym == "abc" else (24, 1)
         ev["lev1"] = level(fn, vals, qs, n1, m1)
         ev["lev2"] = level(fn, vals, qs, 2 * n1, 2 * m1)
-        ev["lev3"] = level(fn, vals, qs, 37, 24 if sym == "abc" else 1)
+        ev["lev3"] = level(fn, vals, qs, 37, 37 if sym == "abc" else 1)
+        ev["lev0"] = (level(fn, vals, qs, 20, 20, "gl") if sym == "abc" else level(fn, vals, qs, 20, 1))
     except Exception as exc:
         ev["raised"] = (type(exc).__name__ + ": " + str(exc))[:200].replace('"', "'")
         for k in ("I", "F2"):
             ev.setdefault(k, [])
         ev.setdefault("V", "1.0")
-        ev.setdefault("lev1", {"n": 0, "m": 0, "pts": []})
-        ev.setdefault("lev2", {"n": 0, "m": 0, "pts": []})
-        ev.setdefault("lev3", {"n": 0, "m": 0, "pts": []})
+        ev.setdefault("lev1", {"n": 0, "m": 0, "phikind": "trap", "pts": []})
+        ev.setdefault("lev2", {"n": 0, "m": 0, "phikind": "trap", "pts": []})
+        ev.setdefault("lev3", {"n": 0, "m": 0, "phikind": "trap", "pts": []})
+        ev.setdefault("lev0", {"n": 0, "m": 0, "phikind": "trap", "pts": []})
     k1.release()
     emit(ev)
 
